@@ -17,14 +17,14 @@ import (
 
 // Cfg describes the coordinate domain shared by the operands of one case.
 type Cfg struct {
-	Side    int  // lattice indices are in [0,Side]
-	OffX    int  // integer translation
-	OffY    int
-	FlipX   bool // axis reflections
-	FlipY   bool
-	GP      bool // general position: every lattice point is moved by a hash-derived fraction
-	GPSalt  uint64
-	Scale   int // lattice step (1 default)
+	Side   int // lattice indices are in [0,Side]
+	OffX   int // integer translation
+	OffY   int
+	FlipX  bool // axis reflections
+	FlipY  bool
+	GP     bool // general position: every lattice point is moved by a hash-derived fraction
+	GPSalt uint64
+	Scale  int // lattice step (1 default)
 }
 
 type G struct {
@@ -677,4 +677,76 @@ func (g *G) Any(depth int) geom.Geometry {
 		return EmptyOf(t, geom.DimXY)
 	}
 	return g.Typed(t, depth)
+}
+
+// WithEmpties returns g with empty members inserted at random positions of
+// every Multi*/collection node (validity is preserved). n = expected number
+// of insertions per container (0..n).
+func WithEmpties(r *run.Rng, g geom.Geometry, n int) geom.Geometry {
+	ct := g.CoordinatesType()
+	switch g.Type() {
+	case geom.TypeMultiPoint:
+		mp := g.MustAsMultiPoint()
+		pts := make([]geom.Point, mp.NumPoints())
+		for i := range pts {
+			pts[i] = mp.PointN(i)
+		}
+		for k := r.Intn(n + 1); k > 0; k-- {
+			i := r.Intn(len(pts) + 1)
+			pts = append(pts[:i], append([]geom.Point{geom.NewEmptyPoint(ct)}, pts[i:]...)...)
+		}
+		return geom.NewMultiPoint(pts).AsGeometry()
+	case geom.TypeMultiLineString:
+		ml := g.MustAsMultiLineString()
+		ls := make([]geom.LineString, ml.NumLineStrings())
+		for i := range ls {
+			ls[i] = ml.LineStringN(i)
+		}
+		for k := r.Intn(n + 1); k > 0; k-- {
+			i := r.Intn(len(ls) + 1)
+			ls = append(ls[:i], append([]geom.LineString{geom.LineString{}.ForceCoordinatesType(ct)}, ls[i:]...)...)
+		}
+		return geom.NewMultiLineString(ls).AsGeometry()
+	case geom.TypeMultiPolygon:
+		mp := g.MustAsMultiPolygon()
+		ps := make([]geom.Polygon, mp.NumPolygons())
+		for i := range ps {
+			ps[i] = mp.PolygonN(i)
+		}
+		for k := r.Intn(n + 1); k > 0; k-- {
+			i := r.Intn(len(ps) + 1)
+			ps = append(ps[:i], append([]geom.Polygon{geom.Polygon{}.ForceCoordinatesType(ct)}, ps[i:]...)...)
+		}
+		return geom.NewMultiPolygon(ps).AsGeometry()
+	case geom.TypeGeometryCollection:
+		gc := g.MustAsGeometryCollection()
+		ms := make([]geom.Geometry, gc.NumGeometries())
+		for i := range ms {
+			ms[i] = WithEmpties(r, gc.GeometryN(i), n)
+		}
+		for k := r.Intn(n + 1); k > 0; k-- {
+			i := r.Intn(len(ms) + 1)
+			e := EmptyOf(AllTypes[r.Intn(7)], ct)
+			ms = append(ms[:i], append([]geom.Geometry{e}, ms[i:]...)...)
+		}
+		return geom.NewGeometryCollection(ms).AsGeometry()
+	}
+	return g
+}
+
+var AllCTypes = []geom.CoordinatesType{geom.DimXY, geom.DimXYZ, geom.DimXYM, geom.DimXYZM}
+
+// Rich returns a valid geometry of a random type and coordinate type with
+// empty members, sometimes wholly empty.
+func (g *G) Rich(depth int) geom.Geometry {
+	t := AllTypes[g.R.Intn(len(AllTypes))]
+	ct := AllCTypes[g.R.Intn(4)]
+	if g.R.Chance(1, 12) {
+		return EmptyOf(t, ct)
+	}
+	x := g.Typed(t, depth).ForceCoordinatesType(ct)
+	if g.R.Chance(1, 2) {
+		x = WithEmpties(g.R, x, 2)
+	}
+	return x
 }
